@@ -64,6 +64,10 @@ def main(argv):
             return cmd_gen(argv[1:])
         if argv[0] == 'try':
             return cmd_try(argv[1:])
+        if argv[0] == 'selftest':
+            G = driver.assemble()
+            print('selftest: generated %d lines, %d functions, %d obligations' % (len(G.linemap), len(G.fns), len(G.obligations)))
+            return 0
         from . import checks
         return checks.main(argv)
     except (AnchorLost, SpecError, driver.ToolError) as e:
